@@ -1,9 +1,9 @@
 package props
 
 import (
-	"go/token"
 	"fmt"
 	"go/constant"
+	"go/token"
 	"strings"
 	"unicode"
 	"unicode/utf8"
